@@ -20,9 +20,10 @@ class BuildError(Exception):
 class Build:
     """copy of /repo/python + /repo/c in a fresh temp dir with _tskit compiled from it"""
 
-    def __init__(self):
+    def __init__(self, asan=False):
         self.dir = None
         self.build_s = 0.0
+        self.asan = asan        # compile the extension with AddressSanitizer (gcc) and preload its runtime
 
     def make(self, ext=True):
         t0 = time.time()
@@ -36,6 +37,9 @@ class Build:
         if ext:
             env = dict(os.environ)
             env["TSKIT_VERIF"] = "1"
+            if self.asan:
+                env["CFLAGS"] = "-fsanitize=address -fno-omit-frame-pointer -g -O1"
+                env["LDFLAGS"] = "-fsanitize=address"
             p = subprocess.run([VENV_PY, "setup.py", "-q", "build_ext", "--inplace", "-j", "8"],
                                cwd=os.path.join(self.dir, "python"), capture_output=True, text=True, env=env)
             if p.returncode != 0:
@@ -52,6 +56,10 @@ class Build:
         e["PYTHONPATH"] = self.pypath + os.pathsep + ROOT
         e["VF_BUILD_DIR"] = self.dir
         e["PYTHONDONTWRITEBYTECODE"] = "1"
+        if self.asan:
+            lib = subprocess.run(["gcc", "-print-file-name=libasan.so"], capture_output=True, text=True).stdout.strip()
+            e["LD_PRELOAD"] = lib
+            e["ASAN_OPTIONS"] = "detect_leaks=0:abort_on_error=1:allocator_may_return_null=1"
         return e
 
     def cleanup(self):
@@ -71,6 +79,14 @@ def _run_json(build, module, argv, timeout):
         if line.startswith("RESULT "):
             last = line[7:]
     if last is None:
+        if getattr(build, "asan", False) and "AddressSanitizer" in (p.stderr or ""):
+            # the stand-in itself was stopped by AddressSanitizer: a memory error inside the C library on an input the
+            # stand-in generated (reproduce with the same seed); reported as a violation carrying the report
+            k = p.stderr.find("ERROR: AddressSanitizer")
+            return {"evaluations": 0, "distinct_nontrivial": 0, "scope": "stopped by AddressSanitizer", "samples": [],
+                    "violations": [{"clause": "no memory error under AddressSanitizer",
+                                    "input": {"standin": module, "argv": argv, "last_output": p.stdout[-500:]},
+                                    "observed": p.stderr[k:k + 4000], "expected": "no report"}]}
         return {"error": "no RESULT line (exit %s): %s %s" % (p.returncode, p.stdout[-1500:], p.stderr[-3000:])}
     try:
         return json.loads(last)
